@@ -68,6 +68,10 @@ def run(ctx, focus='C11'):
         prev_here = saved_in.get(rd) if over else None
         saved_in[rd] = {'passwords': pws, 'ngram': ngram, 'alphabet_size': asize, 'max_length': maxlen}
         ct.save_rules(al, alphabet, ks, lc, len(pws), rd, ngram, rule_enc)
+        # the OMEN half of the trainer in the model (Model/OmenCount.lean): alphabet of the first pass, n-gram counts of the second,
+        # levels after smoothing - computed by the driver from the password list alone and compared with the real objects
+        ops.append(f"oc.train {asize} {ngram} {maxlen} " + ' '.join(enc(p_) for p_ in pws))
+        exp.append(ct.count_line(al, alphabet))
         pre = ct.trainer_ops(al)
         ops += pre
         exp += ['ok'] * len(pre)
